@@ -25,11 +25,20 @@ func vc15Clone(s hist.Subject) hist.Subject {
 	return vc15Subj{&c}
 }
 
+// vc15Scale: thorough counts divided by 5 under ASan (fixed per tier and cfg).
+func vc15Scale(q, t int) int {
+	if lib.Cfg() == "asan" && t/5 >= q {
+		t /= 5
+	}
+	return lib.Scale(q, t)
+}
+
 func TestVerifC15Lanes(t *testing.T) {
 	const mon = "TestVerifC15Lanes"
 	lib.Flag("keccakf1600.IsEnabledX4", keccakf1600.IsEnabledX4())
 	lib.Flag("keccakf1600.IsEnabledX2", keccakf1600.IsEnabledX2())
-	lib.Mandatory("histories", "op:clone", "op:reset", "k12wb:directed", "k12wb:lanes-agree")
+	lib.Mandatory("histories", "op:clone", "op:reset", "k12wb:directed", "k12wb:lanes-agree", "k12wb:cursor-checked",
+		"k12wb:lanes2:partial-buffer-then-write-spanning-two-buffers", "k12wb:lanes4:partial-buffer-then-write-spanning-two-buffers")
 	for _, lanes := range []int{1, 2, 4} {
 		pfx := fmt.Sprintf("k12.lanes%d", lanes)
 		lib.Mandatory("histories:"+pfx, pfx+":tree", pfx+":S<8192(single-node)", pfx+":S=8192(single-node-full)", pfx+":S=8193(one-byte-leaf)",
@@ -54,7 +63,7 @@ func TestVerifC15Lanes(t *testing.T) {
 			}
 		}
 	}
-	n := 2*len(directed) + lib.Scale(150, 40000)
+	n := 2*len(directed) + vc15Scale(600, 40000)
 	lib.Par(n, func(i int) {
 		r := lib.NewRng("c15/k12wb/custom", i)
 		lanes := []int{1, 2, 4}[i%3]
@@ -88,7 +97,7 @@ func TestVerifC15Lanes(t *testing.T) {
 	// Metamorphic: the three lane counts agree with each other (and with the
 	// reference) on the same message under different chunkings, and the
 	// cursor fields hold the model's values while absorbing.
-	m := lib.Scale(60, 6000)
+	m := vc15Scale(200, 6000)
 	lib.Par(m, func(i int) {
 		r := lib.NewRng("c15/k12wb/agree", i)
 		cl := lib.Pick(r, 0, 0, 1, 200, 8191, 8192, 8193)
@@ -97,6 +106,12 @@ func TestVerifC15Lanes(t *testing.T) {
 		ml := lens[r.Intn(len(lens))]
 		if r.Intn(4) == 0 {
 			ml = r.Intn(80000)
+		}
+		// every third case: a partially filled lane buffer followed by one
+		// write that completes it AND carries at least another full buffer
+		fillThenDirect := i%3 == 0
+		if fillThenDirect {
+			ml = 9*chunkSize + r.Intn(chunkSize)
 		}
 		msg := r.Bytes(ml)
 		on := lib.Pick(r, 16, 32, 64, 168, 169, 400)
@@ -107,8 +122,21 @@ func TestVerifC15Lanes(t *testing.T) {
 			rest := msg
 			absorbed := 0
 			bad := false
+			step := 0
 			for len(rest) > 0 {
 				w := lib.Pick(r, 1, 167, 168, 169, 8191, 8192, 8193, lanes*8192-1, lanes*8192, lanes*8192+1, 1+r.Intn(3*8192), len(rest))
+				if fillThenDirect {
+					switch step {
+					case 0:
+						w = chunkSize + 1 + r.Intn(chunkSize-1)
+					case 1:
+						w = len(rest)
+						if lanes > 1 {
+							lib.Count(fmt.Sprintf("k12wb:lanes%d:partial-buffer-then-write-spanning-two-buffers", lanes))
+						}
+					}
+				}
+				step++
 				if w > len(rest) {
 					w = len(rest)
 				}
